@@ -120,7 +120,12 @@ def composite_circuits(env):
         c = lw.Circuit(2); c.add(hsub(4, [(1, 0, 3), (0, 2, 1)]), 0)
         return c
 
-    return [("one_level", one_level), ("two_subs_and_direct", two_subs_and_direct), ("nested", nested),
+    def unitary_plus():       # a Unitary object that was built on afterwards
+        c = lw.Unitary(kernel.haar(3, env.seed + 350)); c.bs(0, reflectivity=env.R[1]); c.ps(2, env.PH[1]); c.bs(1, 2)
+        c.herald(0, 2, 0)
+        return c
+
+    return [("unitary_plus", unitary_plus), ("one_level", one_level), ("two_subs_and_direct", two_subs_and_direct), ("nested", nested),
             ("grouped_plain", grouped_plain), ("sub_only", sub_only)]
 
 
